@@ -2,11 +2,12 @@
 Model of `routee-compass-core/src/util/multiset.rs`: `MultiSet`, an iterator over the Cartesian product
 of a vector of vectors, implemented as a mixed-radix counter with carry.
 
-The type is *partial* in the code and stays partial here:
-* `From`: `final_pos = len - 1` on `usize` — with an empty inner vector this wraps to `2^64 - 1` in a
-  release build (no overflow checks); the first `next` then indexes `sets[i][0]` out of bounds: `panic`;
-* with no inner vector at all the carry loop body never runs, `finished` is never set and the iterator
-  yields `[]` for ever: fuel exhaustion, `diverges`.
+The type used to be *partial* (`final_pos = len - 1` wrapped for an empty inner vector and the first `next`
+indexed out of bounds; with no inner vector `finished` was never set and the iterator yielded `[]` for
+ever).  Since the repair it is total: an empty inner vector means no combination (`pos = None` from the
+start), no inner vector means the single empty combination (`finished` starts as `sets.is_empty()`).
+Indexing stays explicit (`Outcome.panic`), the run stays fuelled (`Outcome.diverges`); that neither
+happens is a theorem (`Proofs/MultiSet.lean`).
 
 No imports (links into the driver).
 -/
@@ -30,14 +31,11 @@ inductive Outcome (α : Type) where
   | diverges
   deriving Repr
 
-/-- `a - 1` on `usize` in a release build (wrapping) -/
-def usizeSub1 (a : Nat) : Nat := if a = 0 then 2 ^ 64 - 1 else a - 1
-
-/-- `MultiSet::from` -/
+/-- `MultiSet::from`: `final_pos = len.saturating_sub(1)`; no position at all when some set is empty -/
 def «from» {α : Type} (sets : List (List α)) : MultiSet α :=
   { sets := sets
-    pos := some (List.replicate sets.length 0)
-    finalPos := sets.map (fun v => usizeSub1 v.length) }
+    pos := if sets.any List.isEmpty then none else some (List.replicate sets.length 0)
+    finalPos := sets.map (fun v => v.length - 1) }
 
 /-- `for r in next_pos.iter_mut().take(n) { *r = 0 }` -/
 def zeroPrefix : Nat → List Nat → List Nat
@@ -47,15 +45,17 @@ def zeroPrefix : Nat → List Nat → List Nat
 
 /-- The carry loop `for idx in 0..len { … }`, started at `idx` with `k = len - idx` iterations left.
 Returns `(next_pos, finished)`; `none` is an index out of bounds (`next_pos[idx]`, `final_pos[idx]`).
-Running off the end of the range (only possible when `len = 0`) leaves `finished = false`. -/
-def carry (finalPos : List Nat) (len : Nat) : Nat → Nat → List Nat → Option (List Nat × Bool)
-  | 0, _, pos => some (pos, false)
+Running off the end of the range (only possible when `len = 0`) leaves `finished` at its initial value
+`finished0` (`self.sets.is_empty()`). -/
+def carry (finalPos : List Nat) (len : Nat) (finished0 : Bool) :
+    Nat → Nat → List Nat → Option (List Nat × Bool)
+  | 0, _, pos => some (pos, finished0)
   | k + 1, idx, pos =>
     match pos[idx]?, finalPos[idx]? with
     | some p, some f =>
       if p < f then some (pos.set idx (p + 1), false)
       else if idx = len - 1 then some (pos, true)
-      else carry finalPos len k (idx + 1) (zeroPrefix (idx + 1) pos)
+      else carry finalPos len finished0 k (idx + 1) (zeroPrefix (idx + 1) pos)
     | _, _ => none
 
 /-- `position.iter().zip(0..sets.len()).map(|(j, i)| sets[i][*j]).collect()`, started at set `i`;
@@ -81,7 +81,7 @@ def next {α : Type} (ms : MultiSet α) : Outcome (Option (List α) × MultiSet 
     match pickFrom ms.sets 0 position with
     | none => .panic "multiset/sets-index"
     | some result =>
-      match carry ms.finalPos ms.sets.length ms.sets.length 0 position with
+      match carry ms.finalPos ms.sets.length ms.sets.isEmpty ms.sets.length 0 position with
       | none => .panic "multiset/pos-index"
       | some (nextPos, finished) =>
         .ok (some result, { ms with pos := if finished then none else some nextPos })
@@ -99,6 +99,20 @@ def collectMap {α β : Type} (f : List α → Outcome β) : Nat → MultiSet α
         | .ok ys => .ok (y :: ys)
         | .panic s => .panic s
         | .diverges => .diverges
+      | .panic s => .panic s
+      | .diverges => .diverges
+    | .panic s => .panic s
+    | .diverges => .diverges
+
+/-- at most `k` calls of `next`: the items handed out and whether the iterator ended (`None`) -/
+def takeN {α : Type} : Nat → MultiSet α → Outcome (List (List α) × Bool)
+  | 0, _ => .ok ([], false)
+  | k + 1, ms =>
+    match next ms with
+    | .ok (none, _) => .ok ([], true)
+    | .ok (some x, ms') =>
+      match takeN k ms' with
+      | .ok (xs, e) => .ok (x :: xs, e)
       | .panic s => .panic s
       | .diverges => .diverges
     | .panic s => .panic s
